@@ -130,7 +130,11 @@ pub fn apply(book: &mut Spreadsheet, op: &AOp) -> bool {
             s.set_auto_filter(range.clone());
         }),
         AOp::TabColor { sheet, argb } => sheet_mut(book, *sheet).map(|s| {
-            s.get_tab_color_mut().set_argb(argb.clone());
+            if let Some(t) = argb.strip_prefix("theme:") {
+                s.get_tab_color_mut().set_theme_index(t.parse().unwrap_or(4));
+            } else {
+                s.get_tab_color_mut().set_argb(argb.clone());
+            }
         }),
         AOp::Freeze { sheet, cols, rows } => sheet_mut(book, *sheet).map(|s| {
             let mut pane = Pane::default();
@@ -368,7 +372,7 @@ pub fn gen_aop(rng: &mut Rng, sheets: usize, alpha: usize, tag: &str, w: &[u32; 
         },
         1 => AOp::CondFmt { sheet, sqref: sq, kind: rng.below(4) as u8, op: rng.below(6) as u8, priority: 1 + rng.below(20) as i32, formula: format!("{}", rng.below(50)), text: format!("{}t", tag.replace(|c: char| !c.is_ascii_alphanumeric(), "")), bold: rng.chance(1, 2) },
         2 => AOp::AutoFilter { sheet, range: format!("A{}:D{}", r, r + 5) },
-        3 => AOp::TabColor { sheet, argb: ["FFFF0000", "FF00B050", "FF0070C0", "FF7030A0"][rng.usize(4)].to_string() },
+        3 => AOp::TabColor { sheet, argb: ["FFFF0000", "FF00B050", "FF0070C0", "FF7030A0", "FF123456", "theme:4", "theme:9"][rng.usize(7)].to_string() },
         4 => AOp::Freeze { sheet, cols: rng.below(3) as u32, rows: 1 + rng.below(3) as u32 },
         5 => AOp::Selection { sheet, cell: format!("{}{}", ["A", "B", "C", "AA"][rng.usize(4)], r) },
         6 => AOp::PageSetup { sheet, landscape: rng.chance(1, 2), paper: [1u32, 8, 9, 11][rng.usize(4)], scale: if rng.chance(1, 2) { 50 + rng.below(100) as u32 } else { 0 }, fit_w: rng.below(3) as u32, fit_h: rng.below(3) as u32 },
